@@ -1,5 +1,6 @@
 import StunVerif.Props.C02
 import StunVerif.Props.C02Causes
+import StunVerif.Props.SrcFnIter
 #print axioms StunVerif.C02.parse_iff
 #print axioms StunVerif.C02.split_unique
 #print axioms StunVerif.C02.parse_faithful
@@ -11,3 +12,10 @@ import StunVerif.Props.C02Causes
 #print axioms StunVerif.C02.cause_after
 #print axioms StunVerif.C02.cause_admissible
 #print axioms StunVerif.C02.causes_nil_iff
+#print axioms StunVerif.SrcFnIter.drop_drop_len
+#print axioms StunVerif.SrcFnIter.iterGo_succ_ok
+#print axioms StunVerif.SrcFnIter.iterGo_succ_err
+#print axioms StunVerif.SrcFnIter.next_spec
+#print axioms StunVerif.SrcFnIter.collect_eq
+#print axioms StunVerif.SrcFnIter.src_iter
+#print axioms StunVerif.SrcFnIter.src_iter_more_fuel
